@@ -1080,6 +1080,8 @@ pub mod __macro_support {
         // This only happens once (or if the cached interest value was corrupted).
         #[cold]
         pub fn register(&'static self) -> Interest {
+            #[cfg(all(tokio_rs_tracing_verif, feature = "std"))]
+            tracing_core::verif::point("macro_callsite.register.before_cas");
             // Attempt to advance the registration state to `REGISTERING`...
             match self.register.compare_exchange(
                 Self::UNREGISTERED,
@@ -1090,6 +1092,8 @@ pub mod __macro_support {
                 Ok(_) => {
                     // Okay, we advanced the state, try to register the callsite.
                     crate::callsite::register(self.registration);
+                    #[cfg(all(tokio_rs_tracing_verif, feature = "std"))]
+                    tracing_core::verif::point("macro_callsite.register.before_registered");
                     self.register.store(Self::REGISTERED, Ordering::Release);
                 }
                 // Great, the callsite is already registered! Just load its
@@ -1125,6 +1129,8 @@ pub mod __macro_support {
         /// without warning.
         #[inline]
         pub fn interest(&'static self) -> Interest {
+            #[cfg(all(tokio_rs_tracing_verif, feature = "std"))]
+            tracing_core::verif::point("macro_callsite.interest");
             match self.interest.load(Ordering::Relaxed) {
                 Self::INTEREST_NEVER => Interest::never(),
                 Self::INTEREST_SOMETIMES => Interest::sometimes(),
